@@ -962,6 +962,12 @@ impl Element {
                     // update the character data
                     {
                         let mut element = self.0.write();
+                        // on mixed content elements the sub elements are replaced too; remove them properly, so that they
+                        // become invalid and their paths and references are dropped from the model
+                        let sub_elements: Vec<Element> = element.content.iter().filter_map(ElementContent::unwrap_element).collect();
+                        for sub_element in sub_elements {
+                            element.remove_sub_element(sub_element, &model)?;
+                        }
                         element.content.clear();
                         element.content.push(ElementContent::CharacterData(chardata));
                     }
